@@ -22,6 +22,29 @@ func loadedFromFactMap(owner string, v ssa.Value) bool {
 	return false
 }
 
+// listIsResult: the list built by this append leaves the function: a (non-error) result depends on it, or it is
+// stored into something that is not a local variable.  A list that only serves the function itself (the ids a
+// wholesale removal hands to the removal hook one by one) is not a result.
+func listIsResult(fn *ssa.Function, app *ssa.Call) bool {
+	isApp := func(v ssa.Value) bool { return v == ssa.Value(app) }
+	res := false
+	allInstrs(fn, func(in ssa.Instruction) {
+		switch x := in.(type) {
+		case *ssa.Return:
+			for _, rv := range x.Results {
+				if !isErrorType(rv.Type()) && dependsOn(resolveSpill(rv), isApp) {
+					res = true
+				}
+			}
+		case *ssa.Store:
+			if _, local := addrRoot(x.Addr).(*ssa.Alloc); !local && dependsOn(x.Val, isApp) {
+				res = true
+			}
+		}
+	})
+	return res
+}
+
 func purgeGate(w *World) gateSpec {
 	purge := purgeHelpers(w)
 	return gateSpec{Name: "expire", FailWhen: "true", Idx: 0, IsGate: func(c *ssa.CallCommon) bool {
@@ -71,7 +94,7 @@ func ruleExpGuard(w *World, r *Report) {
 			case *ssa.Call:
 				c := x.Common()
 				if b, ok := c.Value.(*ssa.Builtin); ok && b.Name() == "append" && len(c.Args) == 2 {
-					if dependsOn(c.Args[1], isLoaded) {
+					if dependsOn(c.Args[1], isLoaded) && listIsResult(fn, x) {
 						sinks = append(sinks, in)
 					}
 				}
